@@ -110,7 +110,9 @@ def r16_2(ctx):
     # (b) sending side
     n = 0
     for f in prog.fns.values():
-        if f.crate != "sonic_rs" or not (f.self_adt or "").endswith("serde::de::Deserializer"):
+        # every function of the crate that hands a value's own bytes to a visitor (the text deserializer's methods; any
+        # other Deserializer that answers the private token the same way)
+        if f.crate != "sonic_rs":
             continue
         vb = [(b, t) for b, t in f.calls() if callee_is(t, "visit_bytes")]
         # only the hand-overs of an object's own bytes: slice_from_raw_parts(&val as *const u8, size_of::<T>())
@@ -323,4 +325,52 @@ def r16_w(ctx):
     witness_obligations(ctx, "R16.W", [('W4OwnedAreStatic', "Value and OwnedLazyValue are 'static + Send + Sync, LazyValue<'a> is not 'static"), ('W6AllocNeedsMut', 'the bump allocator needs &mut Shared')])
 
 
-RULES = [("R16.1", r16_1), ("R16.2", r16_2), ("R16.3", r16_3), ("R16.4", r16_4), ("R16.5", r16_5), ("R16.6", r16_6), ("R16.7", r16_7), ("R16.W", r16_w)]
+REALLOC = ("shrink_to_fit", "shrink_to", "reserve", "reserve_exact", "try_reserve", "push", "extend", "extend_from_slice", "resize", "resize_with", "append", "insert",
+           "into_boxed_slice", "split_off", "drain", "retain", "dedup", "clear", "set_len")
+
+
+def r16_8(ctx):
+    """the text that string / key / raw-number nodes point into stays where it is: after the over-reading reader was built
+    on the padded buffer, parse_with_padding only moves the buffer (into the arena); nothing that can reallocate or
+    rewrite a Vec<u8> is applied to it there, nor to the `json` field of the arena anywhere in the crate"""
+    prog = ctx.prog()
+    f = prog.find("Value::parse_with_padding")
+    news = [(b, t) for b, t in f.calls() if "PaddedSliceRead" in t.get("callee", "") and t["callee"].endswith("::new")]
+    if len(news) != 1:
+        ctx.fail_closed("R16.8", "parse_with_padding: PaddedSliceRead::new")
+        return
+    nb = news[0][0]
+    after = f.reachable_from(nb) - {nb}
+    bad = []
+    for b, t in f.calls():
+        nm = t["callee"].rsplit("::", 1)[-1]
+        if b in after and nm in REALLOC and "Vec" in t["callee"] and any("u8" in g for g in (t.get("rgargs") or t.get("gargs") or ["u8"])):
+            bad.append((nm, t["ln"]))
+    ctx.ob("R16.8", "parse_with_padding:buffer-only-moved", not bad, f.loc(bad[0][1] if bad else None),
+           "after the reader was built on it the padded buffer is only moved into the arena" if not bad else
+           f"the padded buffer is changed by {[x[0] for x in bad]} after the parser stored pointers into it: a reallocation (or a later one it enables) moves the text away from under every string, key and raw-number node")
+    bad = []
+    n = 0
+    for g in prog.fns.values():
+        if g.crate != "sonic_rs":
+            continue
+        for b, t in g.calls():
+            nm = t["callee"].rsplit("::", 1)[-1]
+            if nm not in REALLOC or "Vec" not in t["callee"] or not t["args"] or op_local(t["args"][0]) is None:
+                continue
+            sl, leaves = backward_slice(g, [op_local(t["args"][0])], through_calls=False)
+            if any(lf[0] == "place" and "json" in [e[2] for e in lf[1][1] if isinstance(e, list) and e[0] == "."] and "Shared" in g.locals[lf[1][0]]["ty"] for lf in leaves):
+                bad.append((short(g.id), nm, g.loc(t["ln"])))
+        for b, i, s_ in g.assigns():
+            names = [e[2] for e in s_["lhs"][1] if isinstance(e, list) and e[0] == "."]
+            if names[-1:] == ["json"] and "Shared" in g.locals[s_["lhs"][0]]["ty"]:
+                n += 1
+                if g.name not in ("set_json", "default", "new"):
+                    bad.append((short(g.id), "store", g.loc(s_.get("ln"))))
+    ctx.floor("R16.8", "stores to Shared.json", n, 1)
+    ctx.ob("R16.8", "Shared.json:never-reallocated", not bad, bad[0][2] if bad else "src/value/shared.rs",
+           "the arena's text is stored once (set_json) and no reallocating Vec operation is applied to it" if not bad else
+           f"the arena's text is changed after it was stored: {bad[:3]} - nodes keep raw pointers into the old allocation")
+
+
+RULES = [("R16.1", r16_1), ("R16.2", r16_2), ("R16.3", r16_3), ("R16.4", r16_4), ("R16.5", r16_5), ("R16.6", r16_6), ("R16.7", r16_7), ("R16.8", r16_8), ("R16.W", r16_w)]
